@@ -104,6 +104,12 @@ Cat == [
                   text |-> "unsafe impl Send for crate::Nt<{n}{i}> {}", q |-> ""],
   cfgfn      |-> [toks |-> <<"#","[]","pub","fn","x","x","x","x","()","x","x","x","{}">>, label |-> TRUE,
                   text |-> "#[cfg(all())] pub fn f{i}<D>(d: &D) -> u32 { {i} }", q |-> ""],
+  \* one function written once per cfg alternative (same name `alt{n}`, independent of the position): the disabled and the enabled
+  \* alternative are two declared functions and get a (cfg-guarded) method each
+  cfgoffalt  |-> [toks |-> <<"#","[]","pub","fn","x","x","x","x","()","x","x","x","{}">>, label |-> TRUE,
+                  text |-> "#[cfg(any())] pub fn alt{n}<D>(d: &D) -> u32 { 100 + {i} }", q |-> "X"],
+  cfgonalt   |-> [toks |-> <<"#","[]","pub","fn","x","x","x","x","()","x","x","x","{}">>, label |-> TRUE,
+                  text |-> "#[cfg(all())] pub fn alt{n}<D>(d: &D) -> u32 { {i} }", q |-> "Y"],
   \* items whose HEADER contains a top-level `=` before the `{ }` body (`<..>` is no token group)
   eqprivfn   |-> [toks |-> <<"fn","x","()","x","x","x","x","x","x","x","x","x","{}">>, label |-> FALSE,
                   text |-> "fn h{i}() -> impl Iterator<Item = u32> { [{i}u32].into_iter() }", q |-> ""],
